@@ -3,11 +3,14 @@ package main
 
 import (
 	"fmt"
+	"io"
+	"log/slog"
 	"os"
 
 	"dawgsverif/areas/cachearea"
 	"dawgsverif/areas/entityarea"
 	"dawgsverif/areas/idsetarea"
+	"dawgsverif/areas/reacharea"
 )
 
 type cmd func(args []string)
@@ -15,10 +18,13 @@ type cmd func(args []string)
 var areas = map[string]map[string]cmd{
 	"cache":  {"replay": cachearea.Replay, "conc": cachearea.Conc},
 	"entity": {"replay": entityarea.Replay},
+	"reach":  {"replay": reacharea.Replay},
 	"idset":  {"replay": idsetarea.Replay, "conc": idsetarea.Conc, "abba": idsetarea.Abba, "toggle": idsetarea.Toggle},
 }
 
 func main() {
+	// DAWGS logs measurements through slog; keep the harness output to what the driver parses
+	slog.SetDefault(slog.New(slog.NewTextHandler(io.Discard, nil)))
 	if len(os.Args) < 3 {
 		fmt.Fprintln(os.Stderr, "usage: vh <area> <cmd> [flags]")
 		os.Exit(3)
